@@ -7,6 +7,7 @@ import (
 	"encoding/json"
 	"errors"
 	"fmt"
+	"math/big"
 	"sort"
 	"strings"
 	"time"
@@ -44,11 +45,18 @@ func bytesID(b []byte) int {
 func strID(s string) int { return bytesID([]byte("s:" + s)) }
 func valueID(v any) int  { return valueIDs.id([]byte(fmt.Sprintf("%T|%#v", v, v))) }
 
-func timeZ(t time.Time) int64 {
+// timeTerm: a time as a Coq Z literal, nanoseconds since the Unix epoch computed without overflow
+// (time.Time.UnixNano is only defined for the years 1678..2262); Go's zero time is 0
+func timeTerm(t time.Time) string {
 	if t.IsZero() {
-		return 0
+		return "0"
 	}
-	return t.UnixNano()
+	z := new(big.Int).Mul(big.NewInt(t.Unix()), big.NewInt(1000000000))
+	z.Add(z, big.NewInt(int64(t.Nanosecond())))
+	if z.Sign() < 0 {
+		return "(" + z.String() + ")"
+	}
+	return z.String()
 }
 
 var joseAlgNum = map[string]int{"PS256": 1, "PS384": 2, "PS512": 3, "ES256": 4, "ES384": 5, "ES512": 6}
@@ -131,7 +139,7 @@ func tvalJWS(t *time.Time) string {
 	if t == nil {
 		return "TAbsent"
 	}
-	return fmt.Sprintf("(TTime %s 1)", cZ(timeZ(*t)))
+	return fmt.Sprintf("(TTime %s 1)", timeTerm((*t)))
 }
 
 func viewJWS(b []byte) *envView {
@@ -247,7 +255,7 @@ func tvalCOSE(prot map[any]any, raw map[any]cbor.RawMessage, label string) strin
 	if err := rt.UnmarshalCBOR(raw[label]); err != nil {
 		return "TBad"
 	}
-	return fmt.Sprintf("(TTime %s %d)", cZ(timeZ(t)), rt.Number)
+	return fmt.Sprintf("(TTime %s %d)", timeTerm((t)), rt.Number)
 }
 
 func coseLabelTerm(l any) (extKV, bool) {
@@ -428,7 +436,7 @@ func contentTerm(c *signature.EnvelopeContent) (string, map[string]any) {
 		agent = strID(si.UnsignedAttributes.SigningAgent)
 	}
 	term := fmt.Sprintf("(Content %d %d %d %s %s %s %d %d %s %d %d)", bytesID(c.Payload.Content), strID(c.Payload.ContentType), scheme,
-		cZ(timeZ(si.SignedAttributes.SigningTime)), cZ(timeZ(si.SignedAttributes.Expiry)), cList(attrs), int(si.SignatureAlgorithm),
+		timeTerm((si.SignedAttributes.SigningTime)), timeTerm((si.SignedAttributes.Expiry)), cList(attrs), int(si.SignatureAlgorithm),
 		bytesID(si.Signature), cList(chain), agent, bytesID(si.UnsignedAttributes.TimestampSignature))
 	d := map[string]any{"payload": string(c.Payload.Content), "cty": c.Payload.ContentType, "scheme": string(si.SignedAttributes.SigningScheme),
 		"time": si.SignedAttributes.SigningTime.String(), "expiry": si.SignedAttributes.Expiry.String(), "alg": int(si.SignatureAlgorithm), "n_attrs": len(es), "chain_len": len(chain)}
@@ -517,4 +525,14 @@ func coseSignature(env []byte) []byte {
 		return nil
 	}
 	return msg.Signature
+}
+
+// timeTermNZ: like timeTerm but without the zero-time convention (certificate validity bounds)
+func timeTermNZ(t time.Time) string {
+	z := new(big.Int).Mul(big.NewInt(t.Unix()), big.NewInt(1000000000))
+	z.Add(z, big.NewInt(int64(t.Nanosecond())))
+	if z.Sign() < 0 {
+		return "(" + z.String() + ")"
+	}
+	return z.String()
 }
